@@ -63,12 +63,12 @@ ViewsAgree(S) == \A p \in Primaries(S) : \A n \in Alive(S) : S[n].primary_view =
 
 NothingPending(S) == \A n \in Alive(S) : S[n].pending = 0
 
-(* C14: one forward per line, one copy per secondary and line, one ack per copy;     *)
-(* a client operation emits at most two lines                                        *)
+(* C14, as the property states it: at most one forward to the primary, one copy per  *)
+(* secondary, one ack per copy, nothing sent on by a secondary                         *)
 Budget(S, c) ==
   LET secs == Cardinality(Alive(S)) - 1 IN
-  /\ c.forward <= 2
-  /\ c.copy <= 2 * secs
+  /\ c.forward <= 1
+  /\ c.copy <= secs
   /\ c.ack <= c.copy
   /\ c.fanout = 0
 
